@@ -662,6 +662,14 @@ func ruleC12Hooks(cx *Ctx) {
 						why = "unchanged"
 					}
 				}
+				if why == "" {
+					// an absolute difference written out: the difference of the duration and the current one is known to be zero
+					for atom := range o.S.preds {
+						if t, _, ok := signAtom(atom); ok && strings.Contains(t, d) && strings.Contains(t, "-") && signPossible(o.S.preds, t) == 2 {
+							why = "unchanged"
+						}
+					}
+				}
 				a.check(name+" "+e.Args[0]+": duration applied", why != "", "the duration returned by a hook is stored as now + duration unless it is non-positive or equal to the entry's current one (no other test may drop it)", "hook result "+d+" neither stored nor shown redundant", o)
 			}
 			// the explicit deadline setters: on a live entry the deadline is stored, unless the path decided - by looking
